@@ -719,7 +719,12 @@ def ruleDateInterval(ts: datetime, d: Time, i: Interval) -> Optional[Interval]:
             POD=i.t_to.POD,
         )
 
-    if t_from and t_to and t_from.dt >= t_to.dt:
+    try:
+        wrapped = bool(t_from and t_to and t_from.dt >= t_to.dt)
+    except ValueError:
+        # the date does not exist in the calendar (e.g. 31.04.)
+        return None
+    if wrapped:
         # "9-5" edge case, this is a common implicit am to pm interval
         if (type(t_from.hour) == int and type(t_to.hour) == int) and (t_from.hour <= 12 and t_to.hour <= 12) and (t_from.hour >= t_to.hour):
             t_to_dt = t_to.dt + relativedelta(hours=12)
@@ -913,7 +918,11 @@ def ruleDurationInterval(
     ts: datetime, dur: Duration, interval: Interval
 ) -> Optional[Interval]:
     # 3 days 15-18 Nov
-    delta = interval.t_to.dt - interval.t_from.dt
+    try:
+        delta = interval.t_to.dt - interval.t_from.dt
+    except ValueError:
+        # one of the dates does not exist in the calendar
+        return None
     dur_delta = _duration_to_relativedelta(dur)
     if delta.days == dur_delta.days:
         return interval
@@ -929,6 +938,11 @@ def ruleTimeDuration(
     # heute eine Übernachtung
 
     # To make an interval we should at least have a date
+    try:
+        start_ts = t.dt
+    except ValueError:
+        # the date does not exist in the calendar (e.g. 29.02.2019)
+        return None
     if dur.unit in (
         DurationUnit.DAYS,
         DurationUnit.NIGHTS,
@@ -936,14 +950,14 @@ def ruleTimeDuration(
         DurationUnit.MONTHS,
     ):
         delta = _duration_to_relativedelta(dur)
-        end_ts = t.dt + delta
+        end_ts = start_ts + delta
         # We the end of the interval is a date without particular times
         end = Time(year=end_ts.year, month=end_ts.month, day=end_ts.day)
         return Interval(t_from=t, t_to=end)
 
     if dur.unit in (DurationUnit.HOURS, DurationUnit.MINUTES):
         delta = _duration_to_relativedelta(dur)
-        end_ts = t.dt + delta
+        end_ts = start_ts + delta
         end = Time(
             year=end_ts.year,
             month=end_ts.month,
